@@ -932,3 +932,119 @@ def rule_whole_elements_in_buffer(ctx, rep, rid: str) -> None:
                 rep.bad(rid, key, f"{f.qual} computes the length as {short(d, 50)} without having refused a remainder: `new Uint32Array(new ArrayBuffer(7))` silently covers 4 of the 7 bytes where ECMAScript raises RangeError", f"{f.module.rel}:{d.lineno}")
     if n == 0:
         raise AnalysisError(f"{rid}: no length-from-bytes division found in the typed array constructor")
+
+
+# ---- a host loop over a container that the script can change runs on a snapshot ---------------------------------
+_LIVE_DICTS = ("_properties", "_getters", "_setters")
+_SNAPSHOTS = ("list", "tuple", "sorted", "set", "frozenset", "dict")
+
+
+def _live_iterable(e: ast.AST, aliases: Set[str]) -> Optional[Tuple[str, str]]:
+    """('list'|'dict', text) when iterating e walks storage that script code can change while the loop runs."""
+    if isinstance(e, ast.Call) and isinstance(e.func, ast.Name) and e.func.id in ("enumerate", "reversed", "zip", "iter") and e.args:
+        for a in e.args:
+            r = _live_iterable(a, aliases)
+            if r is not None:
+                return r
+        return None
+    if isinstance(e, ast.Call) and isinstance(e.func, ast.Attribute) and e.func.attr in ("items", "keys", "values") and not e.args:
+        b = e.func.value
+        if isinstance(b, ast.Attribute) and b.attr in _LIVE_DICTS:
+            return "dict", norm(e)
+        return None
+    if isinstance(e, ast.Attribute) and e.attr in _SHARED_STORAGE:
+        return "list", norm(e)
+    if isinstance(e, ast.Attribute) and e.attr in _LIVE_DICTS:
+        return "dict", norm(e)
+    if isinstance(e, ast.Name) and e.id in aliases:
+        return "list", e.id
+    return None
+
+
+def rule_live_container_iteration(ctx, rep, rid: str, floor: int = 3) -> None:
+    """`for i, x in enumerate(arr._elements)` asks the list for its next element on every pass.  When the loop body can
+    run script code (a callback, a user toString), the script can append: the loop then visits elements that were not
+    there when the method was called - for ever, if each visit appends one - and for a dictionary the host raises
+    RuntimeError (changed size during iteration).  ECMAScript fixes the range at the start."""
+    rep.rule(rid, "a host loop (for statement, comprehension or generator) whose body can run script code does not iterate an object's element list or property dictionaries directly: it walks a snapshot (list(..), a slice, sorted(..)) or an index range fixed before the loop, so a callback that appends cannot extend the loop and a dictionary cannot change size under its iterator", floor=floor)
+    sr = ctx.facts.script_reachable()
+    n = 0
+    for f in ctx.tree.funcs:
+        if id(f) not in sr or isinstance(f.node, ast.Lambda) or f.module.name.startswith("regex"):
+            continue
+        aliases: Set[str] = set()
+        h = f
+        while h is not None:
+            for a in h.own_nodes():
+                if isinstance(a, ast.Assign) and len(a.targets) == 1 and isinstance(a.targets[0], ast.Name) and isinstance(a.value, ast.Attribute) and a.value.attr in _SHARED_STORAGE:
+                    aliases.add(a.targets[0].id)
+            h = h.parent
+        loops: List[Tuple[ast.AST, ast.AST, List[ast.AST]]] = []  # (node, iterable, body nodes)
+        for nd in f.own_nodes():
+            if isinstance(nd, ast.For):
+                loops.append((nd, nd.iter, nd.body))
+            elif isinstance(nd, (ast.ListComp, ast.SetComp, ast.GeneratorExp, ast.DictComp)):
+                body = [nd.elt] if not isinstance(nd, ast.DictComp) else [nd.key, nd.value]
+                for g in nd.generators:
+                    loops.append((nd, g.iter, body + list(g.ifs)))
+        if not loops:
+            continue
+        re_sites = None
+        for node, it, body in loops:
+            live = _live_iterable(it, aliases)
+            if live is None:
+                continue
+            if re_sites is None:
+                re_sites = {id(c) for c in _reentrant_sites(ctx, f)}
+            hit = next((x for b in body for x in ast.walk(b) if id(x) in re_sites), None)
+            n += 1
+            key = f"{f.qual}:for-in {short(it, 40)}"
+            if hit is None:
+                rep.ok(rid, key, {"body": "runs no script code"})
+            elif live[0] == "list":
+                rep.bad(rid, key, f"{f.qual} iterates {live[1]} itself while its body can run script code ({short(hit, 40)}): a callback that appends to the array extends the loop (one that appends on every visit never lets it end: `a.forEach(function(x){{a.push(x)}})`), where ECMAScript visits only the indices present at the start", f"{f.module.rel}:{node.lineno}")
+            else:
+                rep.bad(rid, key, f"{f.qual} iterates {live[1]} while its body can run script code ({short(hit, 40)}): a getter or callback that adds or deletes a property makes the host raise RuntimeError (dictionary changed size during iteration) out of eval", f"{f.module.rel}:{node.lineno}")
+    rep.analysed["live_iterations"] = n
+    if n < floor:
+        raise AnalysisError(f"{rid}: only {n} loops over live element/property storage found (floor {floor})")
+
+
+# ---- the host refuses to sort a list that changes while it is being sorted ---------------------------------------
+def rule_sort_on_a_copy(ctx, rep, rid: str) -> None:
+    """list.sort() empties the list for the duration of the sort and raises ValueError ("list modified during sort")
+    when it finds something in it afterwards.  The comparator of Array.prototype.sort is script code and may well
+    push to the array: the element list is therefore sorted as a copy (sorted(..)) and put back."""
+    rep.rule(rid, "no in-place host sort (list.sort) is applied to an object's element list with a key or comparator that can run script code: the host raises ValueError when the list is touched meanwhile; a copy is sorted instead (sorted(..), or a sort of a local list)", floor=1)
+    sr = ctx.facts.script_reachable()
+    n = 0
+    for f in ctx.tree.funcs:
+        if id(f) not in sr or isinstance(f.node, ast.Lambda) or f.module.name.startswith("regex"):
+            continue
+        for c in f.own_nodes():
+            if not isinstance(c, ast.Call):
+                continue
+            inplace = isinstance(c.func, ast.Attribute) and c.func.attr == "sort" and isinstance(c.func.value, ast.Attribute) and c.func.value.attr in _SHARED_STORAGE
+            copied = isinstance(c.func, ast.Name) and c.func.id == "sorted" and c.args and isinstance(c.args[0], ast.Attribute) and c.args[0].attr in _SHARED_STORAGE
+            if not (inplace or copied):
+                continue
+            n += 1
+            key = f"{f.qual}:{short(c, 40)}"
+            keyfn = next((k.value for k in c.keywords if k.arg == "key"), None)
+            runs_script = False
+            if keyfn is not None:
+                # the comparator wrapped by cmp_to_key, or the key function itself: a local function with re-entrant calls
+                names = {x.id for x in ast.walk(keyfn) if isinstance(x, ast.Name)}
+                for g in f.children.values():
+                    if g.name in names and not isinstance(g.node, ast.Lambda) and _reentrant_sites(ctx, g):
+                        runs_script = True
+                    # one level of helpers the comparator calls
+                    for h2 in f.children.values():
+                        if g.name in names and any(isinstance(x, ast.Call) and isinstance(x.func, ast.Name) and x.func.id == h2.name for x in g.own_nodes()) and _reentrant_sites(ctx, h2):
+                            runs_script = True
+            if inplace and (runs_script or keyfn is None and False):
+                rep.bad(rid, key, f"{f.qual} sorts {norm(c.func.value)} in place with a comparator that can run script code: when the script touches the array during the sort (`a.sort(function(x,y){{a.push(1);return x-y}})`) the host raises ValueError: list modified during sort, which leaves eval as a host exception", f"{f.module.rel}:{c.lineno}")
+            else:
+                rep.ok(rid, key, {"in_place": inplace, "comparator_runs_script": runs_script})
+    if n == 0:
+        raise AnalysisError(f"{rid}: no sort of an element list found")
